@@ -7,7 +7,7 @@ mkdir -p .build evidence replays coq/run coq/gen
 cp /repo/go.sum harness/go.sum
 (cd harness && go build -o ../.build/astgen ./cmd/astgen)
 .build/astgen -repo /repo -out coq/gen
-(cd coq && ./gen_coqproject.sh >/dev/null 2>&1; timeout 3000 make -j16 2>&1 | grep -v '^Warning' | tail -5)
+(cd coq && ./gen_coqproject.sh >/dev/null 2>&1; timeout 3000 make -k -j16 2>&1 | grep -v '^Warning' | tail -5)
 # pre-build every harness binary (also warms the Go build cache)
 for d in harness/cmd/*/; do
   n=$(basename "$d")
